@@ -521,6 +521,16 @@ func (env *CEnv) bin(e *CE) Term {
 
 // strCat builds a right-nested concatenation (associativity by normalisation: no string theory needed).
 func strCat(a, b string) string {
+	// conditional strings: the concatenation is pushed into the branches, so a string built along several paths becomes an
+	// ite-tree whose leaves are flat, literal-folded concatenations (canonical on both the code and the contract side)
+	if len(a)+len(b) < 400000 {
+		if c, x, y, ok := splitIte(a); ok {
+			return "(ite " + c + " " + strCat(x, b) + " " + strCat(y, b) + ")"
+		}
+		if c, x, y, ok := splitIte(b); ok {
+			return "(ite " + c + " " + strCat(a, x) + " " + strCat(a, y) + ")"
+		}
+	}
 	// literal folding: "" is the unit, adjacent literals merge
 	if ta, ok := litText[a]; ok {
 		if ta == "" {
@@ -552,9 +562,72 @@ func strCat(a, b string) string {
 		}
 		x := joinToks(toks[i : xEnd+1])
 		y := joinToks(toks[xEnd+1 : len(toks)-1])
-		return "(str_cat " + x + " " + strCat(y, b) + ")"
+		t := strCat(y, b)
+		if _, _, _, ok := splitIte(t); ok {
+			return strCat(x, t)
+		}
+		return "(str_cat " + x + " " + t + ")"
 	}
 	return "(str_cat " + a + " " + b + ")"
+}
+
+// splitIte splits "(ite c x y)" into its three parts.
+func splitIte(s string) (c, x, y string, ok bool) {
+	if !strings.HasPrefix(s, "(ite ") {
+		return
+	}
+	parts := topLevelArgs(s)
+	if len(parts) != 4 {
+		return
+	}
+	return parts[1], parts[2], parts[3], true
+}
+
+// topLevelArgs splits "(f a b c)" into [f a b c] at nesting depth 1 (|quoted| symbols respected).
+func topLevelArgs(s string) []string {
+	var out []string
+	depth, start := 0, -1
+	inBar := false
+	for i := 0; i < len(s); i++ {
+		ch := s[i]
+		if inBar {
+			if ch == '|' {
+				inBar = false
+			}
+			continue
+		}
+		switch ch {
+		case '|':
+			inBar = true
+			if depth == 1 && start < 0 {
+				start = i
+			}
+		case '(':
+			depth++
+			if depth == 2 && start < 0 {
+				start = i
+			}
+		case ')':
+			depth--
+			if depth == 1 && start >= 0 {
+				// closes a nested term: token ends only at following space
+			}
+			if depth == 0 && start >= 0 {
+				out = append(out, s[start:i])
+				start = -1
+			}
+		case ' ', '\t', '\n':
+			if depth == 1 && start >= 0 {
+				out = append(out, s[start:i])
+				start = -1
+			}
+		default:
+			if depth == 1 && start < 0 {
+				start = i
+			}
+		}
+	}
+	return out
 }
 
 func joinToks(toks []string) string {
